@@ -288,10 +288,8 @@ func ruleInterruptUnwind(c *Ctx, r *R) {
 		if nDirect > 0 {
 			r.bad("poll:mixed", c.Pos(wrapper.Pos()), "some poll sites call the received function directly and others through "+ssaFuncName(wrapper)+": the direct ones raise an unmarked panic that the try statement's handler converts into a catchable value")
 		}
-		for _, an := range wrapper.AnonFuncs {
-			if callsRecover(an) {
-				wrapHandler = an
-			}
+		for _, an := range deferredHandlers(wrapper) {
+			wrapHandler = an
 		}
 		if wrapHandler == nil {
 			r.bad("wrapper:"+ssaFuncName(wrapper), c.Pos(wrapper.Pos()), ssaFuncName(wrapper)+" runs the interrupt function without a recover handler: its panic is not marked, and the try statement's handler converts it into a value the script's catch clause receives")
@@ -377,14 +375,17 @@ func ruleInterruptUnwind(c *Ctx, r *R) {
 	}
 	var handlers []*ssa.Function
 	for _, fn := range funcs {
-		if fn.Parent() != nil && callsRecover(fn) && fn != wrapHandler {
+		if callsRecover(fn) && fn != wrapHandler {
 			handlers = append(handlers, fn)
 		}
 	}
 	sort.Slice(handlers, func(i, j int) bool { return ssaFuncName(handlers[i]) < ssaFuncName(handlers[j]) })
 	for _, h := range handlers {
 		exits := simulateHandler(h, marker)
-		api := underAPI(h.Parent())
+		api := false
+		for _, d := range deferrersOf(c, h) {
+			api = api || underAPI(d)
+		}
 		key := "handler:" + ssaFuncName(h)
 		site := c.Pos(h.Pos())
 		var bad []string
